@@ -363,14 +363,27 @@ func (r *Runner) MisuseMatrix() *Violation {
 			if v := c.expectKind("SetBytes(oversize)", func() error { return fresh.SetBytes(make([]byte, ps+1)) }, "InvalidParam"); v != nil {
 				return fail(v)
 			}
+			// the rejected call must not have changed the page: still no contents, not dirty
+			if v := c.expectKind("Bytes of fresh page after a rejected oversize SetBytes", func() error { _, err := fresh.Bytes(); return err }, inv...); v != nil {
+				return fail(v)
+			}
+			if fresh.Dirty() {
+				return fail(violationf("misuse-state", c.item, "fresh page is marked dirty after a rejected oversize SetBytes"))
+			}
 			// dirty page
 			cont := Content(700001, ps)
 			if err := toFlush.SetBytes(append([]byte(nil), cont...)); err != nil {
 				return fail(violationf("write-error", c.item, "SetBytes failed: %v", err))
 			}
 			T.Pages[hFlush] = MPage{ID: toFlush.ID(), Data: cont}
+			if v := c.expectKind("SetBytes(oversize) on dirty page", func() error { return toFlush.SetBytes(make([]byte, 2*ps)) }, "InvalidParam"); v != nil {
+				return fail(v)
+			}
 			if v := c.expectKind("Free of dirty page", toFlush.Free, inv...); v != nil {
 				return fail(v)
+			}
+			if !toFlush.Dirty() {
+				return fail(violationf("misuse-state", c.item, "dirty page is no longer dirty after rejected calls"))
 			}
 			if b, err := toFlush.Bytes(); err != nil || !bytes.Equal(b, cont) {
 				return fail(violationf("misuse-state", c.item, "dirty page changed after rejected Free (err=%v)", err))
